@@ -44,3 +44,20 @@ ENTRY["level_text"] += (" The signing input itself is modelled bit-exactly (Mode
     "object root, domain type, fork version or genesis root changes the signing root or exhibits an explicit (possibly 224-bit truncated) "
     "SHA-256 collision (data_root_binds, signing_root_binds_fork); tied by stream signing (real functions over the beacon mock and the "
     "production http adapter, compared bit for bit).")
+
+# The HTTP door of the validator client: core/validatorapi/router.go in front of the Component (Model/Router.lean composed
+# with Model/Admit.lean, Props/C10Router.lean, stream router: real NewRouter over httptest, real Component, real requests).
+from vlib import snippet_C10router as _rt
+ENTRY["streams"].append(_rt.STREAM)
+ENTRY["lean_props_extra"].append(_rt.EXTRA_LEAN)
+ENTRY["monitor_sigs"] = ENTRY["monitor_sigs"] + _rt.MONITOR_SIGS
+ENTRY["trusted_base"] = ENTRY["trusted_base"] + _rt.TRUSTED_BASE
+ENTRY["assumptions"] = [a for a in ENTRY["assumptions"] if not a.startswith("HTTP router decoding is not covered")] + _rt.ASSUMPTIONS
+ENTRY["level_text"] += (" The HTTP door itself (core/validatorapi/router.go: NewRouter's fourteen POST endpoints and propose-block v3, wrap, "
+    "unmarshal, content-type and Eth-Consensus-Version rules, per-fork decoding, the SingleAttestation conversion) is modelled in "
+    "Model/Router.lean in front of the admission model; Props/C10Router.lean proves for every decoder, verify function, lock and request "
+    "that everything delivered through the router is a decoded body element, filed under its own validator and slot, valid under the "
+    "lock's share (router_admitted_valid, router_passes_body_unchanged, router_composes_with_admit), that the fork version is the "
+    "header's and the encoding the Content-Type's (router_version_from_header), that a malformed request or one bad element delivers "
+    "nothing (router_rejects_malformed_partial, router_no_call_on_error, router_batch_atomic) and how a SingleAttestation's validator is "
+    "looked up (single_attestation_conversion); tied by stream router (the real router over httptest with the real Component).")
